@@ -33,11 +33,15 @@ class XG:
         if k < .72:
             return '%s %s %s' % (self.ie(d - 1), r.choice(['&', '|', '^']), self.ie(d - 1))
         if k < .78:
-            return '(%s & 15) %s %s' % (self.ie(d - 1), r.choice(['<<', '>>']), r.choice(['1', '2']))
+            # parenthesised as a whole: a following `- y` would otherwise become part of the shift count
+            return '((%s & 15) %s %s)' % (self.ie(d - 1), r.choice(['<<', '>>']), r.choice(['1', '2']))
         if k < .83:
-            return '(%s & 255) %% %s' % (self.ie(d - 1), r.choice(['3', '7']))
+            return '((%s & 255) %% %s)' % (self.ie(d - 1), r.choice(['3', '7']))
         if k < .92:
-            return '%s%s%s' % (r.choice(['-', '+', '~', '- ']), '', self.ie(d - 1))
+            operand = self.ie(d - 1)
+            if '%' in operand:
+                operand = '(%s)' % operand       # -(x & 255) % 3 would be a modulo of a negative number: outside the subset
+            return '%s%s' % (r.choice(['-', '+', '~', '- ']), operand)
         return '(%s)' % self.ie(d - 1)
 
     def be(self, d):
@@ -91,7 +95,8 @@ def run(ctx: Ctx) -> None:
         g = XG(rnd)
         is_bool = rnd.random() < .5
         exprs.append((is_bool, (g.be if is_bool else g.ie)(rnd.choice([1, 2, 2, 3]))))
-    exprs += [(True, 'a & b == c'), (True, 'not a == b'), (False, '- -a'), (True, 'not a & b == c | x or foo and not bar'), (False, '-(a) - -(b)'), (True, 'a | b ^ c & x == y')]
+    exprs += [(True, 'a & b == c'), (True, 'not a == b'), (False, '- -a'), (True, 'not a & b == c | x or foo and not bar'), (False, '-(a) - -(b)'), (True, 'a | b ^ c & x == y'),
+              (False, 'a + b << 1'), (False, '1 << (a & 7) + 1'), (False, 'x >> 1 + (b & 1) & 3'), (True, 'a << 1 < b + 20'), (False, 'a * 3 % 7 + b'), (False, '(a & 7) * 5 % 3 - 1')]
     params = ', '.join(['%s: int' % v for v in INTV] + ['%s: bool' % v for v in BOOLV])
     B = 30
     cases, raw, units = [], [], []
